@@ -58,6 +58,7 @@ def run_property(prop, tier="quick", overrides=None, jobs=None, only=None, quiet
         for i, _ in enumerate(c["instances"]):
             work.append((prop, c["name"], i, overrides, tier == "thorough"))
     nproc = jobs or min(16, max(1, len(work)))
+    driver.SHARED_HARD = mp.get_context("fork").Value("d", 0.0)
     if nproc > 1 and len(work) > 1:
         with mp.get_context("fork").Pool(nproc) as pool:
             results = pool.map(driver.run_unit_job, work, chunksize=1)
